@@ -112,9 +112,22 @@ func (r *c01) obs(res string, reg, b int) string {
 		stop = append(stop, k)
 		return len(stop) < j
 	})
+	// InorderAfter with a consumer that stops once it holds js keys, for every js in 0..3 (audit item 8: the
+	// early-exit paths of inorderAfter — a stop at a path node, a stop inside a right subtree).  The start key
+	// b-10 lies below most keys of the small scopes, so that the walk has something to stop in.  The range
+	// function is called with an explicit callback: an iterator that went on after `false` shows up as extra
+	// keys in the observation (a `for range` loop would turn it into a runtime panic).
+	var astop [4][]int
+	for js := range astop {
+		t.InorderAfter(b - 10)(func(k int) bool {
+			astop[js] = append(astop[js], k)
+			return len(astop[js]) < js
+		})
+	}
 	shape, h := c01Shape(t)
-	fmt.Fprintf(&sb, ";after=%d:%s;stop=%d:%s;cmps=%d %d %d;h=%d;vmax=%d;shape=%s",
-		b+1, fmtInts(after), j, fmtInts(stop), cmps[0], cmps[1], cmps[2], h, stree.VerifMax(t), shape)
+	fmt.Fprintf(&sb, ";after=%d:%s;stop=%d:%s;afterstop=%d:%s %s %s %s;cmps=%d %d %d;h=%d;vmax=%d;shape=%s",
+		b+1, fmtInts(after), j, fmtInts(stop), b-10, fmtInts(astop[0]), fmtInts(astop[1]), fmtInts(astop[2]), fmtInts(astop[3]),
+		cmps[0], cmps[1], cmps[2], h, stree.VerifMax(t), shape)
 	r.shape[reg] = shape
 	if h >= 8 {
 		r.st.Note("height>=8")
